@@ -322,3 +322,23 @@ func OprfServerFullEvaluate(s MServer, input []byte) ([]byte, error) {
 	}
 	return vUF("oprf_out_"+s.G.name(), outLen(s.G), input, skSecret[s.Sk]), nil
 }
+
+// group "c17": keys carry their real (unexported) fields as well, so that circl's own lazily
+// initialised Public() can be executed from its body
+func OprfGenerateKeyReal(s oprf.Suite, rnd io.Reader) (*oprf.PrivateKey, error) {
+	k, err := OprfGenerateKey(s, rnd)
+	if err != nil {
+		return nil, err
+	}
+	g := suiteGroup(s)
+	var gi interface{} = g
+	var si interface{} = &MScalar{g: g, enc: skSecret[k]}
+	vSetField(k, gi, 0, 1)
+	vSetField(k, si, 1)
+	return k, nil
+}
+
+func (e *MElem) MulGen(s interface{}) interface{} {
+	e.enc = pkEncoding(e.g, s.(*MScalar).enc)
+	return e
+}
